@@ -220,6 +220,48 @@ pub fn run(cx: &Cx) -> Report {
         },
     ));
     rep.mark(cx, "histories");
+    // thorough tier: what the libFuzzer campaign (started by ./check) saved is replayed here
+    // through the supervised worker; only what reproduces is reported
+    if cx.tier == Tier::Thorough {
+        let (lines, summary) = crate::props::c04::fuzz_artifacts("query");
+        rep.stats.note("fuzz_campaign", json!(summary));
+        rep.stats.note("fuzz_artifacts_replayed", json!(lines.len()));
+        let k = known.clone();
+        rep.absorb(par_sweep(
+            cx,
+            "fuzz-artifacts",
+            lines,
+            move || mk_env(k.clone()),
+            |env, line, st| run_history(env, &[(4u8, line.clone())], st),
+            |line| json!({"lines": [line]}),
+        ));
+        rep.mark(cx, "fuzz-artifacts");
+    }
+    if cx.tier == Tier::Thorough {
+        // end to end: generated cheap lines through the real `rink -f <file>`, a sentinel after each
+        let k = known.clone();
+        rep.absorb(par_proptest(
+            cx,
+            "cli-file-mode",
+            32,
+            || proptest::collection::vec(item_strategy(), 150..300),
+            move || mk_env(k.clone()),
+            |env, items, st| {
+                let lines: Vec<String> = items
+                    .iter()
+                    .map(|it| render(&env.dict, it))
+                    .filter(|l| !l.contains('\n') && matches!(classify(&env.ctx, l, (1, 1)).cost, Cost::Cheap) && !crate::oracle::cost::uses_ans(l))
+                    .collect();
+                run_cli(&lines, st)
+            },
+            |items| {
+                let ctx = rinkx::new_ctx();
+                let d = Dict::build(&ctx);
+                json!({"cli_lines": items.iter().map(|it| render(&d, it)).collect::<Vec<_>>()})
+            },
+        ));
+        rep.mark(cx, "cli");
+    }
     if rep.violations.is_empty() && rep.stats.evaluations < 1000 {
         rep.inconclusive = Some("almost nothing was evaluated".into());
     }
@@ -228,6 +270,14 @@ pub fn run(cx: &Cx) -> Report {
 
 pub fn replay(cx: &Cx, _phase: &str, case: &J, st: &mut Stats) -> CaseResult {
     let env = mk_env(cx.known.clone());
+    if let Some(cl) = case.get("cli_lines").and_then(|l| l.as_array()) {
+        let lines: Vec<String> = cl
+            .iter()
+            .map(|l| l.as_str().unwrap_or("").to_string())
+            .filter(|l| !l.contains('\n') && matches!(classify(&env.ctx, l, (1, 1)).cost, Cost::Cheap) && !crate::oracle::cost::uses_ans(l))
+            .collect();
+        return run_cli(&lines, st);
+    }
     let lines: Vec<(u8, String)> = case["lines"]
         .as_array()
         .ok_or("bad case")?
@@ -235,4 +285,82 @@ pub fn replay(cx: &Cx, _phase: &str, case: &J, st: &mut Stats) -> CaseResult {
         .map(|l| (4u8, l.as_str().unwrap_or("").to_string()))
         .collect();
     run_history(&env, &lines, st)
+}
+
+/// inputs saved by a libFuzzer campaign (crash-*, timeout-*, oom-*) as text lines, and its last status line
+pub fn fuzz_artifacts(target: &str) -> (Vec<String>, String) {
+    let fz = verif_root().join("harness").join("fuzz");
+    let summary = std::fs::read_to_string(fz.join(format!("last-{}.txt", target))).unwrap_or_else(|_| "no campaign ran".into());
+    let mut out = vec![];
+    if let Ok(rd) = std::fs::read_dir(fz.join("artifacts").join(target)) {
+        let mut files: Vec<_> = rd.filter_map(|e| e.ok()).map(|e| e.path()).collect();
+        files.sort();
+        for f in files.into_iter().take(200) {
+            if let Ok(bytes) = std::fs::read(&f) {
+                let text = String::from_utf8_lossy(&bytes);
+                out.push(text.replace('\r', " ").replace('\n', " ").chars().take(500).collect());
+            }
+        }
+    }
+    (out, summary.trim().to_string())
+}
+
+/// pipe lines through the real binary: exit status 0 and every sentinel answered
+pub fn run_cli(lines: &[String], st: &mut Stats) -> CaseResult {
+    use std::io::Write;
+    let rink = verif_root().join("harness").join("target-rink").join("debug").join("rink");
+    if !rink.exists() {
+        st.excluded("rink binary not built");
+        return Ok(());
+    }
+    static SEQ: std::sync::atomic::AtomicU32 = std::sync::atomic::AtomicU32::new(0);
+    let dir = std::env::temp_dir().join(format!("rv-c04-cli-{}-{}", std::process::id(), SEQ.fetch_add(1, std::sync::atomic::Ordering::Relaxed)));
+    let cfg = dir.join("config").join("rink");
+    std::fs::create_dir_all(&cfg).map_err(|e| format!("[infrastructure] {}", e))?;
+    std::fs::write(cfg.join("config.toml"), "[currency]\nenabled = false\n[colors]\nenabled = false\n").map_err(|e| format!("[infrastructure] {}", e))?;
+    let input = dir.join("input.txt");
+    {
+        let mut f = std::fs::File::create(&input).map_err(|e| format!("[infrastructure] {}", e))?;
+        for l in lines {
+            let _ = writeln!(f, "{}", l);
+            let _ = writeln!(f, "{}", SENTINEL);
+        }
+    }
+    let out = std::process::Command::new("timeout")
+        .arg("600")
+        .arg(&rink)
+        .arg("-f")
+        .arg(&input)
+        .env("HOME", &dir)
+        .env("XDG_CONFIG_HOME", dir.join("config"))
+        .env("XDG_CACHE_HOME", dir.join("cache"))
+        .env("NO_COLOR", "1")
+        .output();
+    let res = match out {
+        Ok(o) => {
+            st.evals(lines.len() as u64);
+            st.class("cli_batches");
+            let text = String::from_utf8_lossy(&o.stdout);
+            let answered = text.lines().filter(|l| *l == SENTINEL_ANSWER).count();
+            if !o.status.success() {
+                // find the line it died on: the number of sentinel answers tells how far it got
+                let culprit = lines.get(answered).cloned().unwrap_or_default();
+                Err(format!(
+                    "[cli-died] `rink -f` ended with {:?} after answering {} of {} sentinels; next input was `{}`; stderr: {}",
+                    o.status,
+                    answered,
+                    lines.len(),
+                    culprit,
+                    String::from_utf8_lossy(&o.stderr).chars().take(300).collect::<String>()
+                ))
+            } else if answered != lines.len() {
+                Err(format!("[cli-lost-lines] {} sentinels answered for {} input lines", answered, lines.len()))
+            } else {
+                Ok(())
+            }
+        }
+        Err(e) => Err(format!("[infrastructure] cannot run rink: {}", e)),
+    };
+    let _ = std::fs::remove_dir_all(&dir);
+    res
 }
